@@ -321,17 +321,21 @@ def rhsOK (G : AGrammar) (pr : AProd) : Bool :=
   | .optNone => pr.rhs == []
   | _ => pr.rhs.all (plainOK G)
 
-/-- The productions of one non-terminal: a collection non-terminal has exactly one
-    `AddToCollection` and one `CollectionStart` production, an option non-terminal exactly one
-    `OptionalSome` and one `OptionalNone`, all others have no production attribute; only the
-    latter may have a user action. -/
+/-- The productions of one non-terminal: a collection non-terminal has two productions, one
+    `AddToCollection` and one `CollectionStart`; an option non-terminal has two, one `OptionalSome`
+    and one `OptionalNone`; all others have no production attribute, and only those may have a user
+    action. -/
 def ntOK (G : AGrammar) (pr : AProd) : Bool :=
   let ps := prodsOf G pr.lhs
   match pr.attr with
-  | .addToColl => ps.length == 2 && ps.any (·.attr == .collStart) && !(G.userNts.contains pr.lhs)
-  | .collStart => ps.length == 2 && ps.any (·.attr == .addToColl) && !(G.userNts.contains pr.lhs)
-  | .optSome => ps.length == 2 && ps.any (·.attr == .optNone) && !(G.userNts.contains pr.lhs)
-  | .optNone => ps.length == 2 && ps.any (·.attr == .optSome) && !(G.userNts.contains pr.lhs)
+  | .addToColl => ps.length == 2 && ps.all (·.attr.isColl) && ps.any (·.attr == .collStart) &&
+      !(G.userNts.contains pr.lhs)
+  | .collStart => ps.length == 2 && ps.all (·.attr.isColl) && ps.any (·.attr == .addToColl) &&
+      !(G.userNts.contains pr.lhs)
+  | .optSome => ps.length == 2 && ps.all (·.attr.isOpt) && ps.any (·.attr == .optNone) &&
+      !(G.userNts.contains pr.lhs)
+  | .optNone => ps.length == 2 && ps.all (·.attr.isOpt) && ps.any (·.attr == .optSome) &&
+      !(G.userNts.contains pr.lhs)
   | .none => ps.all (·.attr == .none)
 
 /-- The attribute discipline of an expanded grammar (decidable; evaluated per explored grammar). -/
@@ -343,6 +347,7 @@ def attrsWF (G : AGrammar) : Bool :=
     right-hand side, or (LALR augmentation `S' → S`) the start symbol is on no right-hand side, has
     the single production `[S]`, and `S` is on no other right-hand side. -/
 def startIsolated (G : AGrammar) : Bool :=
+  G.userNts.contains G.userStart &&
   G.prods.all (fun pr => pr.rhs.all (fun s => s.sym != .n G.start)) &&
   (G.userStart == G.start ||
     (G.prods.all (fun pr =>
@@ -455,10 +460,129 @@ def parseGrammar (ty st ust unts ps : String) : Option AGrammar := do
   let ps ← parseProds ps
   some ⟨ll, st, ust, unts, ps⟩
 
+/-! ### reading the canonical AST text back (oracle side) -/
+
+def digitsVal (ds : List Char) : Nat := ds.foldl (fun n c => 10 * n + (c.toNat - 48)) 0
+
+mutual
+def pAst : Nat → List Char → Option (Ast × List Char)
+  | 0, _ => none
+  | f + 1, cs =>
+    match cs with
+    | 't' :: r =>
+      let ds := r.takeWhile Char.isDigit
+      if ds.isEmpty then none else some (.tok (digitsVal ds), r.dropWhile Char.isDigit)
+    | 'N' :: r => some (.opt none, r)
+    | 'S' :: '(' :: r =>
+      match pAst f r with
+      | some (a, ')' :: r') => some (.opt (some a), r')
+      | _ => none
+    | '{' :: r =>
+      match pItems f '}' r with
+      | some (ms, r') => some (.struct ms, r')
+      | none => none
+    | '[' :: r =>
+      match pItems f ']' r with
+      | some (ms, r') => some (.vec ms, r')
+      | none => none
+    | 'v' :: r =>
+      let ds := r.takeWhile Char.isDigit
+      if ds.isEmpty then none else
+      match r.dropWhile Char.isDigit with
+      | '{' :: r' =>
+        match pItems f '}' r' with
+        | some (ms, r'') => some (.variant (digitsVal ds) ms, r'')
+        | none => none
+      | _ => none
+    | _ => none
+/-- items up to and including the closing bracket -/
+def pItems : Nat → Char → List Char → Option (List Ast × List Char)
+  | 0, _, _ => none
+  | f + 1, close, cs =>
+    match cs with
+    | [] => none
+    | c :: r =>
+      if c = close then some ([], r) else
+      match pAst f (c :: r) with
+      | some (a, ',' :: r') =>
+        (match pItems f close r' with
+         | some (ms, r'') => if ms.isEmpty then none else some (a :: ms, r'')
+         | none => none)
+      | some (a, c' :: r') => if c' = close then some ([a], r') else none
+      | _ => none
+end
+
+def parseAst (s : String) : Option Ast :=
+  match pAst (s.length + 1) s.toList with
+  | some (a, []) => some a
+  | _ => none
+
+/-- `nt=ast;…` -/
+def parseCalls (s : String) : Option (List Call) :=
+  if s == "-" then some [] else
+  (s.splitOn ";").mapM fun x =>
+    match x.splitOn "=" with
+    | [n, a] => do let n ← n.toNat?; let a ← parseAst a; some ⟨n, a⟩
+    | _ => none
+
+/-- `offset/type,…` -/
+def parseSig (s : String) : Option (List (Nat × Nat)) :=
+  if s == "-" then some [] else
+  (s.splitOn ",").mapM fun x =>
+    match x.splitOn "/" with
+    | [i, ty] => do let i ← i.toNat?; let ty ← ty.toNat?; some (i, ty)
+    | _ => none
+
+/-- Token (id, type) pairs of a forest in input order. -/
+def Forest.allTokTys : Forest → List (Nat × Nat)
+  | .nil => []
+  | .tok id ty r => (id, ty) :: r.allTokTys
+  | .node _ _ ch r => ch.allTokTys ++ r.allTokTys
+
+/-- The property decided on one real run: the recorded user-action calls `calls` (with their
+    text `callsText`) against the derivation `f` rebuilt from the real parser's trace. -/
+def checkRun (G : AGrammar) (f : Forest) (calls : List Call) (callsText : String) : String :=
+  let startCalls := calls.filter (fun c => c.nt == G.userStart)
+  if startCalls.length != 1 then
+    s!"fail start-action-called-{startCalls.length}-times start-applied-{occ G.userStart f}-times" else
+  match startCalls.getLast? with
+  | none => "fail start-action-not-called"
+  | some c =>
+    let want := expToks G [⟨.n G.start, .none⟩] f
+    if c.arg.flatten != want then
+      s!"fail flatten {Proto.showNats c.arg.flatten} expected {Proto.showNats want}" else
+    -- options present exactly when they occurred, repetitions in input order, every other call:
+    -- structural agreement with the declarative AST of the derivation
+    if showCalls (specCalls G f) != callsText then s!"fail shape expected {showCalls (specCalls G f)}" else
+    "ok"
+
 end ParolModel.Ast
 
 namespace ParolModel
 open ParolModel.Ast
+
+-- @handler c23-check handleC23Check
+/-- `c23-check <ll|lr> <start> <userStart> <userNts> <prods> <trace> <sigtoks> <calls>`: decides C23 on the
+    calls the REAL adapter made (`<calls>`, parsed back into `Ast`): the attribute discipline holds
+    for the grammar, the trace is the post-order trace of a derivation of the start symbol whose
+    leaves are exactly the significant tokens, the start symbol's user action was called exactly once,
+    the tokens of its argument are the non-clipped significant tokens in order, and every call's argument has `Some`/`None` and
+    vector contents as the derivation prescribes. -/
+def handleC23Check : List String → Option String
+  | ty :: st :: ust :: unts :: ps :: tr :: sig :: callsText :: _ => do
+    let G ← parseGrammar ty st ust unts ps
+    let tr ← parseTrace tr
+    let sig ← parseSig sig
+    let calls ← parseCalls callsText
+    if !attrsWF G then some "fail attrs-not-wf" else
+    match forestOfTrace G tr [] with
+    | some [f] =>
+      if !wf G [⟨.n G.start, .none⟩] f then some "fail trace-not-a-derivation"
+      else if f.trace != tr then some "fail trace-not-postorder"
+      else if f.allTokTys != sig then some "fail leaves-differ-from-significant-tokens"
+      else some (checkRun G f calls callsText)
+    | _ => some "fail trace-not-a-tree"
+  | _ => none
 
 -- @handler adapter handleAdapter
 /-- `adapter <ll|lr> <start> <userStart> <userNts> <prods> <trace> …` → `ok <calls>` : the user-action
